@@ -427,7 +427,7 @@ func (fc *fontCase) hasEmptyObjects() bool {
 
 // checkFont runs the three interpreters over a built font of well-formed
 // programs.  It returns the labels of the case, or an error text.
-func checkFont(fc *fontCase, knownOK func(key string) bool) (labels []string, nt bool, skip string, fail string) {
+func checkFont(fc *fontCase) (labels []string, nt bool, skip string, fail string) {
 	lab := map[string]bool{}
 	refs := make([]*reft2.Result, len(fc.glyphs))
 	for gi := range fc.glyphs {
@@ -570,7 +570,7 @@ func TestC05Conform(t *testing.T) {
 			addSubrs(t, g.prog, subrPlan{maxLocal: 20, maxGlobal: 20})
 		}
 		fc.finish(t)
-		labels, nt, skip, fail := checkFont(fc, nil)
+		labels, nt, skip, fail := checkFont(fc)
 		if skip != "" {
 			stats.Label("conform", skip)
 			return
